@@ -23,7 +23,8 @@ fn fwd(op: &Op, _ctx: &dyn Context, operands: &mut dyn CoordinateSet) -> usize {
         let cc = c * c;
         let ss = s * s;
 
-        let dlon = coord[0] - lon_0;
+        // Within ±180°, also across the antimeridian (the series in dlon is not periodic)
+        let dlon = angular::normalize_symmetric(coord[0] - lon_0);
         let oo = dlon * dlon;
 
         #[allow(non_snake_case)]
